@@ -514,7 +514,10 @@ func (gb *gcpBalancer) unbindSubConn(boundKey string) {
 	defer gb.mu.Unlock()
 	boundSC, ok := gb.affinityMap[boundKey]
 	if ok {
-		gb.scRefs[boundSC].affinityDecr()
+		// The SubConn may have been shut down and left the pool since the bind.
+		if ref, ok := gb.scRefs[boundSC]; ok {
+			ref.affinityDecr()
+		}
 		delete(gb.affinityMap, boundKey)
 	}
 }
